@@ -16,7 +16,7 @@ ASSUMPTIONS = [
 ]
 
 
-def _pre(a, b, r, c, order, deliver_offset):
+def _pre(a, b, r, c, order, deliver_offset, gap=0):
   """Returns servicer, pythia stub, list of ids by role."""
   with NoTracing():
     py = svc.StubPythia()
@@ -28,8 +28,9 @@ def _pre(a, b, r, c, order, deliver_offset):
     elif order == 2:
       roles = roles[1::2] + roles[0::2]
     ids = {'own': [], 'other': [], 'req': [], 'done': []}
+    tid = 0
     for i, role in enumerate(roles):
-      tid = i + 1
+      tid = i + 1 if gap == 0 or (gap == 1 and i == 0) else i + 3
       if role == 'own':
         t = svc.make_trial(tid, ACTIVE, client='w')
       elif role == 'other':
@@ -47,11 +48,11 @@ def _pre(a, b, r, c, order, deliver_offset):
       return _orig(req)
 
     py.Suggest = suggest
-  return sv, py, ids, len(roles)
+  return sv, py, ids, tid if roles else 0
 
 
-def _check(n, a, b, r, c, order, off, args):
-  sv, py, ids, max_id = _pre(a, b, r, c, order, off)
+def _check(n, a, b, r, c, order, off, args, gap=0):
+  sv, py, ids, max_id = _pre(a, b, r, c, order, off, gap)
   before = svc.abstract(sv)
   need = max(0, n - a - r)
   delivered = max(0, need + off) if need > 0 else 0
@@ -141,6 +142,16 @@ def suggest_step_order2(n: int, a: int, b: int, r: int, c: int, off: int) -> boo
   post: _
   """
   return _step(n, a, b, r, c, 2, off)
+
+
+def suggest_step_gaps(n: int, a: int, r: int, c: int, off: int, gap: int) -> bool:
+  """
+  pre: 1 <= n <= 3 and 0 <= a <= 2 and 0 <= r <= 1 and 0 <= c <= 1 and 0 <= off <= 1 and 1 <= gap <= 2
+  post: _
+  """
+  n, a, r, c, off, gap = conc(n, 1, 3), conc(a, 0, 2), conc(r, 0, 1), conc(c, 0, 1), conc(off, 0, 1), conc(gap, 1, 2)
+  # trial ids with holes, as left by earlier DeleteTrial calls: gap=1 -> ids 1,4,5,..; gap=2 -> ids 3,4,5,..
+  return _check(n, a, 1, r, c, 0, off, (n, a, r, c, off, gap), gap=gap)
 
 
 def suggest_step_big(n: int, a: int, r: int, off: int) -> bool:
